@@ -113,7 +113,7 @@ static void d_union(C4_Any_union_type_t type, flatbuffers_generic_t v)
     case C4_Any_Leaf: d_leaf((C4_Leaf_table_t)v); break;
     case C4_Any_Other: d_other((C4_Other_table_t)v); break;
     case C4_Any_Pt: d_pt((C4_Pt_struct_t)v); break;
-    case C4_Any_Str: d_str((flatbuffers_string_t)v); break;
+    case C4_Any_Str: d_str(flatbuffers_string_cast_from_generic(v)); break;
     default: D(v ? "?" : "~"); break;
     }
 }
